@@ -1,5 +1,5 @@
 /-
-  Model of src/mul.rs:488-737 : compute_simlex, compute_base_rate, Fuse / FuseAssign overloads.
+  Model of src/mul.rs:488-740 : compute_simlex, compute_base_rate, Fuse / FuseAssign overloads.
 -/
 import SLV.Model.Basic
 namespace SLV
@@ -52,8 +52,9 @@ def computeSimplex (op : FuseOp) (l r : Simplex α n) : Simplex α n :=
         let u := (lsb + rsb) * lu * ru / temp
         Simplex.normalized b u
 
-/-- the per-entry shortcut: `if ulps_eq!(al, ar) { al } else { f }` -/
-@[inline] def brEntry (al ar : α) (f : α) : α := if ulpsEq al ar then al else f
+/-- the per-entry shortcut (since repair c8a7116): `if al == ar { al } else { f }` -- an entry is taken over unchanged
+    only when both operands carry exactly the same value -/
+@[inline] def brEntry (al ar : α) (f : α) : α := if Scalar.eq al ar then al else f
 
 /-- `compute_base_rate` (src/mul.rs:541-618). `same` models `std::ptr::eq(lhs.base_rate, rhs.base_rate)`. -/
 def computeBaseRate (op : FuseOp) (same : Bool) (l r : Opinion α n) : Tab α n :=
